@@ -22,6 +22,18 @@ def _flat(t):
     return out
 
 
+def pure_util_bodies(u):
+    """free functions of tokenizer::util that only classify a byte / compare byte strings (no cursor argument): analysed
+    in place wherever a list iterator calls them, and their byte constants join the class partition"""
+    out = []
+    for b in u.bodies:
+        if b.kind == "Fn" and b.npath.startswith("scpi::parser::tokenizer::util::") and not b.impl_trait and not b.in_trait:
+            sig = str(b.j.get("sig") or "")
+            if "Iter" not in sig and "&mut" not in sig and "&'a mut" not in sig and "-> bool" in sig:
+                out.append(b)
+    return out
+
+
 def tuple_arity(self_ty):
     return self_ty.count(",") + 1 if self_ty.startswith("(") else 1
 
@@ -60,11 +72,13 @@ def run(R, tier):
         nl_fields = [f["name"] for f in u.adts[NL + "NumericList"]["variants"][0]["fields"]]
         tk_fields = LX.tokenizer_fields(u)
         # the oracle's own distinguished bytes are always separate classes (a start byte missing from the code must show)
-        consts = LX.byte_constants(u, [b]) | {ord(c) for c in ",+-.:"}
+        pure = pure_util_bodies(u)
+        pure_names = {x.npath for x in pure}
+        consts = LX.byte_constants(u, [b] + pure) | {ord(c) for c in ",+-.:"}
         classes = LX.byte_classes(consts)
         models = dict(M.BYTE_MODELS)
         _inh = D.inline_inherent(("scpi::parser::expression::numeric_list::",), exclude=(NL + "NumericList::read_numeric_data",))
-        engn = fdai.Engine(P, u, inline=lambda n, r: r.endswith(("error::Error::new", "error::Error::extended")) or (not r.endswith("::read_numeric_data") and _inh(n, r)), models=models)
+        engn = fdai.Engine(P, u, inline=lambda n, r: r.endswith(("error::Error::new", "error::Error::extended")) or r in pure_names or (not r.endswith("::read_numeric_data") and _inh(n, r)), models=models)
         bad = []
         n_rows = 0
         for cls in classes + [[]]:
@@ -143,9 +157,12 @@ def run(R, tier):
     else:
         b = cb_[0]
         cl_fields = [f["name"] for f in u.adts[CL + "ChannelList"]["variants"][0]["fields"]]
-        consts = LX.byte_constants(u, [b]) | {ord(c) for c in ",+-.:!@\"'"}
+        pure = pure_util_bodies(u)
+        pure_names = {x.npath for x in pure}
+        consts = LX.byte_constants(u, [b] + pure) | {ord(c) for c in ",+-.:!@\"'"}
         classes = LX.byte_classes(consts)
-        engc = fdai.Engine(P, u, inline=lambda n, r: r.endswith(("error::Error::new", "error::Error::extended")), models=dict(M.BYTE_MODELS))
+        _inhc = D.inline_inherent(("scpi::parser::expression::channel_list::",), exclude=tuple(CL + "ChannelList::" + m for m in ("read_channel_range", "read_channel_path", "read_channel_spec")))
+        engc = fdai.Engine(P, u, inline=lambda n, r: r.endswith(("error::Error::new", "error::Error::extended")) or r in pure_names or (not r.endswith(("::read_channel_range", "::read_channel_path", "::read_channel_spec")) and _inhc(n, r)), models=dict(M.BYTE_MODELS))
         bad = []
         n_rows = 0
 
